@@ -33,11 +33,49 @@ def _rs(x):
     return -1 if x in (float("inf"), -float("inf")) else _num(x)
 
 
-def run_op_case(c):
-    """c: {kind, a, b, sig, hist: [batch, ...]}  ->  c + events"""
+def _classes():
     from rtamt.semantics.stl.dense_time.online.once_timed_operation import OnceTimedOperation
     from rtamt.semantics.stl.dense_time.online.historically_timed_operation import HistoricallyTimedOperation
-    cls = OnceTimedOperation if c["kind"] == "onceT" else HistoricallyTimedOperation
+    return {"onceT": OnceTimedOperation, "histT": HistoricallyTimedOperation}
+
+
+def _at(samples, t):
+    v = None
+    for s in samples:
+        if s[0] <= t:
+            v = s[1]
+    return v
+
+
+def applicable():
+    """The operator classes are internals of the library: a refactoring may rename them, change their constructor, or move part
+    of the work to the caller, and no property forbids that.  The operator-level replay is therefore applied only if the classes
+    still have the interface it assumes: constructed with (begin, end), update(sample list) -> sample list that denotes
+    once / historically[begin, end] of what was fed - probed on one fixed signal, fed at once and sample by sample.  Otherwise
+    the replay is skipped (the whole-monitor replays remain).  Returns (bool, reason)."""
+    try:
+        cl = _classes()
+        want = {"onceT": {0.5: 1, 1.5: 3, 2.5: 3}, "histT": {0.5: 1, 1.5: 1, 2.5: 2}}
+        sig = [[0, 1], [1, 3], [2, 2], [4, 2]]
+        for kind in ("onceT", "histT"):
+            for chunks in ([sig], [[s_] for s_ in sig]):
+                op = cl[kind](0, 1)
+                out = []
+                for ch in chunks:
+                    out += [list(s_) for s_ in op.update([list(s_) for s_ in ch])]
+                if not out:
+                    return False, "no output on the probe signal"
+                for t, v in want[kind].items():
+                    if out[0][0] <= t <= out[-1][0] and _at(out, t) != v:
+                        return False, "%s[0,1] on the probe signal: %r at time %r" % (kind, _at(out, t), t)
+        return True, ""
+    except Exception as ex:      # noqa
+        return False, "%s: %s" % (type(ex).__name__, ex)
+
+
+def run_op_case(c):
+    """c: {kind, a, b, sig, hist: [batch, ...]}  ->  c + events"""
+    cls = _classes()[c["kind"]]
     op = cls(c["a"], c["b"])
     evs = []
     dead = False
@@ -49,11 +87,18 @@ def run_op_case(c):
             try:
                 r = op.update([[s[0], _val(s[1])] for s in batch])
                 e["ret"] = [[_num(s[0]), _num(s[1])] for s in r]
-                e["prev"] = [[_num(t[0]), _num(t[1]), _num(t[2])] for t in op.prev]
-                e["rs"] = _rs(op.residual_start)
             except Exception as ex:      # noqa: recorded, not judged
                 e["exc"] = type(ex).__name__
                 dead = True
+            e["mem"] = False
+            if not dead:
+                try:
+                    # the memory is private state: compared with the model's as a binding diagnostic where it can be read
+                    e["prev"] = [[_num(t[0]), _num(t[1]), _num(t[2])] for t in op.prev]
+                    e["rs"] = _rs(op.residual_start)
+                    e["mem"] = True
+                except Exception:      # noqa
+                    e["prev"] = []; e["rs"] = -1
         evs.append(e)
     out = dict(c)
     out["events"] = [e for e in evs if e["exc"] != "skipped"]
